@@ -1378,6 +1378,21 @@ func (s *Server) bind(mcpConn Connection, conn *jsonrpc2.Connection, state *Serv
 	return ss
 }
 
+// serverBinder binds sessions for a Server, recording the protocol versions
+// that the session's transport can serve before the session is used.
+type serverBinder struct {
+	*Server
+	supportedVersions []string
+}
+
+func (b serverBinder) bind(mcpConn Connection, conn *jsonrpc2.Connection, state *ServerSessionState, onClose func()) *ServerSession {
+	ss := b.Server.bind(mcpConn, conn, state, onClose)
+	ss.mu.Lock()
+	ss.supportedVersions = b.supportedVersions
+	ss.mu.Unlock()
+	return ss
+}
+
 // disconnect implements the binder[*ServerSession] interface, so that
 // Servers can be connected using [connect].
 func (s *Server) disconnect(cc *ServerSession) {
@@ -1421,28 +1436,21 @@ func (s *Server) Connect(ctx context.Context, t Transport, opts *ServerSessionOp
 	}
 
 	s.opts.Logger.Info("server connecting")
-	ss, err := connect(ctx, t, s, state, onClose, s.opts.Logger)
+	// The protocol versions this session can serve, filtered by the
+	// transport's capabilities (if it implements [ProtocolVersionSupporter]),
+	// are recorded when the session is bound, that is before the connection
+	// starts reading: the first request may already be waiting in the transport
+	// (a stdio server whose client wrote first, an SSE client that posts as
+	// soon as it has the endpoint event), and a server/discover handled before
+	// the list is in place would advertise every version.
+	// The list is consumed by the SEP-2575 server/discover handler.
+	ss, err := connect(ctx, t, serverBinder{s, filterSupportedVersions(t)}, state, onClose, s.opts.Logger)
 	if err != nil {
 		s.opts.Logger.Error("server connect error", "error", err)
 		return nil, err
 	}
 
 	verifPoint("server-connect:connection-started") // no-op unless built with the "verif" tag
-
-	// Compute the protocol versions this session can serve, filtered by the
-	// transport's capabilities (if it implements [ProtocolVersionSupporter]).
-	// The list is consumed by the SEP-2575 server/discover handler.
-	//
-	// The write is guarded by ss.mu to establish a happens-before edge with
-	// the matching read in Server.discover, which runs on the jsonrpc2 read
-	// goroutine spawned inside connect(). The two are not concurrent in
-	// wall-clock terms (no incoming message is dispatched until the caller
-	// has fed the transport, which happens after Server.Connect returns),
-	// but without the lock the Go memory model gives the read goroutine no
-	// guarantee of seeing this write, and -race flags it.
-	ss.mu.Lock()
-	ss.supportedVersions = filterSupportedVersions(t)
-	ss.mu.Unlock()
 
 	// Start keepalive before returning the session to avoid race conditions with Close.
 	// This is safe because the spec allows sending pings before initialization (see ServerSession.handle for details).
